@@ -18,7 +18,7 @@ func init() {
 			"the library is run with and without WithFocusWorkload(W) and the focused entries must equal exactly the unfocused entries whose source or destination is a workload whose name or namespace/name equals W (or whose source is the ingress controller when W is ingress-controller), with identical connections; when nothing matches: empty result, nil error, a non-fatal warning in Errors(); " +
 			"non-trivial = the filter keeps some but not all entries; distinct = world hash + W",
 		Assumptions:       []string{"the filter is recomputed by the harness from the peers' Name()/Namespace() accessors of the unfocused run"},
-		NumCases:          func(tier string, _ int64) int { return tierN(tier, 1200+nFixtureCases, 40000+nFixtureCases) },
+		NumCases:          func(tier string, _ int64) int { return tierN(tier, 1200, 40000) + nFix(tier) },
 		Run:               runC16,
 		MinNonTrivial:     200,
 		MinEffectiveShare: 0.3,
@@ -38,7 +38,7 @@ func entryKeyed(res *observe.ListResult) map[[2]string]string {
 func runC16Fixture(c *run.Ctx) {
 	r := c.Res
 	g := c.R("fixture")
-	dir := fixtureFor(c.Repo, c.Idx)
+	dir := fixtureAt(c.Repo, c.Tier, c.Idx)
 	if dir == "" {
 		r.Discarded = "no fixtures"
 		return
@@ -80,7 +80,7 @@ func runC16Fixture(c *run.Ctx) {
 func runC16(c *run.Ctx) {
 	r := c.Res
 	g := c.R("world")
-	if c.Idx < nFixtureCases {
+	if c.Idx < nFix(c.Tier) {
 		runC16Fixture(c)
 		return
 	}
